@@ -4,7 +4,6 @@ import (
 	"encoding/json"
 	"fmt"
 	"strings"
-	"unicode/utf8"
 
 	"github.com/anoideaopen/foundation/core/balance"
 	"github.com/anoideaopen/foundation/core/cctransfer"
@@ -326,8 +325,9 @@ func (bc *BaseContract) QueryChannelTransfersFrom(pageSize int64, bookmark strin
 		return nil, cctransfer.ErrPageSizeLessOrEqZero
 	}
 
+	// every key below the prefix: from the prefix up to (not including) the prefix with its last byte incremented
 	prefix := cctransfer.CCFromTransfers()
-	startKey, endKey := prefix, prefix+string(utf8.MaxRune)
+	startKey, endKey := prefix, prefix[:len(prefix)-1]+string(prefix[len(prefix)-1]+1)
 
 	if bookmark != "" && !strings.HasPrefix(bookmark, prefix) {
 		return nil, cctransfer.ErrInvalidBookmark
